@@ -141,9 +141,10 @@ class NPProxy:
         return self._real.allclose(a, b, rtol=rtol, atol=atol, **kw)
 
     def isclose(self, a, b, rtol=1e-05, atol=1e-08, **kw):
-        if isinstance(a, Sym) or isinstance(b, Sym):
+        if not isinstance(a, np.ndarray) and not isinstance(b, np.ndarray) and (isinstance(a, Sym) or isinstance(b, Sym)):
             return _sym_isclose(a, b, rtol, atol)
-        a_ = np.asarray(a); b_ = np.asarray(b)
+        a_ = np.asarray(a, dtype=object) if isinstance(a, Sym) else np.asarray(a)
+        b_ = np.asarray(b, dtype=object) if isinstance(b, Sym) else np.asarray(b)
         if a_.dtype == object or b_.dtype == object:
             ao, bo = np.broadcast_arrays(np.asarray(a_, dtype=object), np.asarray(b_, dtype=object))
             out = np.empty(ao.shape, dtype=bool)
